@@ -160,6 +160,23 @@ def check(run):
                 if run.too_many():
                     return
             k += 1
+    # the same position / weight array objects partitioned again after being overwritten in place
+    for rep in range(6 if run.quick else 60):
+        N, npart, nthread = [(1000, 7, 4), (17, 3, 16), (100000, 64, 8)][rep % 3]
+        dtype = [np.float32, np.float64][rep % 2]
+        pos, tag = make_positions(rng, N, 123.0, npart, rep % 3, dtype, 'uniform')
+        w = tag.astype(dtype)
+        tsc.partition_parallel(pos, npart, 123.0, weights=w, coord=rep % 3, nthread=nthread, sort=bool(rep % 2))
+        pos2, tag2 = make_positions(rng, N, 123.0, npart, rep % 3, dtype, 'dups')
+        pos[:] = pos2[::-1]
+        w[:] = w[::-1]
+        run.ev()
+        ps2, st2, ws2 = tsc.partition_parallel(pos, npart, 123.0, weights=w, coord=rep % 3, nthread=nthread, sort=bool(rep % 2))
+        ps3, st3, ws3 = tsc.partition_parallel(pos.copy(), npart, 123.0, weights=w.copy(), coord=rep % 3, nthread=nthread, sort=bool(rep % 2))
+        run.nt(('same-objects-again', N, npart, rep % 2))
+        same_rows = np.array_equal(np.sort(ps2.view([('', ps2.dtype)] * 3).ravel()), np.sort(ps3.view([('', ps3.dtype)] * 3).ravel()))
+        if not (np.array_equal(st2, st3) and same_rows and np.array_equal(np.sort(ws2), np.sort(ws3))):
+            run.violation('partition-state-between-calls', dict(N=N, npartition=npart, nthread=nthread, dtype=np.dtype(dtype).str, starts_equal=bool(np.array_equal(st2, st3))))
     run.sample(dict(N=17, npartition=7, coord=1, dtype='<f4', weights='<f4', sort=True, nthread=16, family='boundaries', box=123.0))
     while k < ncalls:
         N = int(rng.choice(Ns[:-1] if rng.random() < 0.93 else Ns))
